@@ -9,8 +9,8 @@ CONSTANTS
   Fetchers = {"f1", "f2"}
   Wants <- Wants2
   Threads = {"t1", "t2"}
-  MaxMsgs = 4
-  Bodies <- BodiesAll
+  MaxMsgs = 5
+  Bodies <- BodiesCore
   RecordHist = TRUE
 INVARIANTS
   TypeOK
@@ -18,4 +18,6 @@ INVARIANTS
   ServedBlockAccepted
   LockReleased
   EmitBehaviour
+CONSTRAINT
+  SimFocus
 CHECK_DEADLOCK FALSE
